@@ -22,7 +22,21 @@ def gen_cases(chk, n, table):
     for i in range(n):
         c = {"id": i, "cat": rng.choice(["background", "dbd"]), "seed": rng.randint(0, 2 ** 31 - 1), "n": rng.choice([1, 1, 2, 3, 7, 20, 60, 300]),
              "level": None, "mode": None, "emin": None, "emax": None, "activity": None, "mdl": None, "extra": [], "bad": None, "basename_kind": "ok", "order": rng.randint(0, 5)}
-        if c["cat"] == "background":
+        family = i % 8   # stratified: every feature family is present in every run, whatever the seed
+        if family in (4, 5, 6):
+            # double beta with an energy window (both bounds / lower only / upper only), on configurations whose initialisation is cheap
+            c["cat"] = "dbd"
+            wcells = [(n_, 0, 10) for n_ in dbd if genmon.rule_accepts(table, n_, 0, 10) and genmon.e0_of(table, n_, 0, 10) > 0.2]
+            wcells += [(n_, 0, m_) for n_ in ("Zn70", "Ca46", "Sn122", "Ce142") for m_ in (4, 5, 6, 13) if genmon.rule_accepts(table, n_, 0, m_)]
+            c["nuclide"], c["level"], c["mode"] = rng.choice(wcells)
+            e0 = genmon.e0_of(table, c["nuclide"], 0, c["mode"])
+            steps = int(e0 * 64)
+            a = rng.randint(0, max(0, steps // 2))
+            b = a + rng.randint(max(1, steps // 4), steps)
+            c["emin"] = a / 64.0 if family != 6 else None
+            c["emax"] = (b + 0.5) / 64.0 if family != 5 else None      # never an integer number of MeV
+        elif c["cat"] == "background" or family in (0, 1):
+            c["cat"] = "background"
             c["nuclide"] = rng.choice(bkg)
         else:
             c["nuclide"] = rng.choice(dbd)
@@ -39,9 +53,9 @@ def gen_cases(chk, n, table):
                     k = rng.randint(0, 2)
                     c["emin"] = a / 64.0 if k != 1 else None
                     c["emax"] = b / 64.0 if k != 2 else None
-        if rng.uniform() < 0.3:
+        if rng.uniform() < 0.3 or family == 1:
             c["activity"] = rng.choice([0.5, 1.0, 12.5, 1000.0, 1e-3])
-        if rng.uniform() < 0.25:
+        if rng.uniform() < 0.25 or family == 2:
             c["mdl"] = {"label": rng.choice(LABELS), "rank": rng.randint(-1, 3), "phi": rng.choice([0.0, 45.0, -120.0, 180.0]),
                         "theta": rng.choice([0.0, 90.0, 30.0, 180.0]), "aperture": rng.choice([0.0, 5.0, 30.0, 90.0, 170.0])}
         # hostile variations (each makes the command line one that must be refused)
